@@ -19,12 +19,13 @@ Proof.
     try (intros; exfalso; eapply no_holder_init; eauto; fail);
     try (constructor; fail).
   - intros t _. unfold ref_ok. repeat split; try (intros; discriminate). intros ? ? ? [].
+  - intros t o _ [[] | []].
   - intros t _. split; discriminate.
   - intros t o _ Ho. lia.
   - intros t _. now left.
   - intros t _. apply cull_ok_none. reflexivity.
+  - intros t _. apply iter_ok_none. reflexivity.
   - intros t x _ [].
-  - intros t _. auto.
 Qed.
 
 Theorem inv_reachable : forall freq frac rows progs s,
@@ -50,7 +51,7 @@ Qed.
 
 (* ------------------------------------------------------------------ deadlock freedom *)
 Definition lock_acquire_pc (p : pc) : bool :=
-  match p with F108 | U192 | E234 | A250 => true | _ => false end.
+  match p with F108 | U192 | E234 | A250 | K181a | L272 => true | _ => false end.
 
 Lemma step_none : forall s t, t < s_n s -> step s t = None ->
   finished (s_thr s t) = true \/
@@ -201,13 +202,13 @@ Theorem no_deadlock_reachable : forall freq frac rows progs s,
   (forall t, t < s_n s -> enabled s t = false) -> all_finished s.
 Proof. intros. apply no_deadlock; [eapply inv_reachable; eauto | assumption]. Qed.
 
-(* ------------------------------------------------------------------ witnesses against the unguarded statements
-   (schedules found by the scheduler on the real code, replayed here) *)
+(* ------------------------------------------------------------------ the witness against the unguarded statements
+   (a schedule found by the scheduler on the real code, replayed here) *)
 Definition w_setup : list op := [Get 1%Z; Get 2%Z].
 Definition w_prefix : list nat := repeat 0 58.
 
 (* create || get of the id being created: two live instances of row 4 *)
-Definition w_get_sched : list nat := w_prefix ++ repeat 2 20 ++ repeat 1 10 ++ repeat 2 8.
+Definition w_get_sched : list nat := w_prefix ++ repeat 2 20 ++ repeat 1 9 ++ repeat 2 8 ++ repeat 1 4.
 Lemma created_vs_get_witness :
   match run (init 100 2 [1%Z; 2%Z; 3%Z] [w_setup; [Create]; [Get 4%Z]]) w_get_sched with
   | Some s => all_finished_b s = true /\ two_objects s = true
@@ -215,32 +216,14 @@ Lemma created_vs_get_witness :
   end.
 Proof. vm_compute. split; reflexivity. Qed.
 
-(* create || expireAll: RuntimeError (dictionary changed size during iteration) *)
-Definition w_xall_sched : list nat := w_prefix ++ repeat 2 11 ++ repeat 1 10 ++ repeat 2 2.
-Lemma created_vs_expireall_witness :
-  match run (init 100 2 [1%Z; 2%Z; 3%Z] [w_setup; [Create]; [XAll]]) w_xall_sched with
-  | Some s => all_finished_b s = true /\ bad_exception s = true
-  | None => False
-  end.
-Proof. vm_compute. split; reflexivity. Qed.
-
-(* create between the loop of expireAll and `self.cache = {}`: the new object is lost from the cache *)
-Definition w_lost_sched : list nat := w_prefix ++ repeat 2 12 ++ repeat 1 10 ++ repeat 2 2.
-Lemma created_lost_witness :
-  match run (init 100 2 [1%Z; 2%Z; 3%Z] [w_setup; [Create]; [XAll]]) w_lost_sched with
-  | Some s => all_finished_b s = true /\ lost_object s = true
-  | None => False
-  end.
-Proof. vm_compute. split; reflexivity. Qed.
-
-(* two sqlmeta.expireAll: RuntimeError in the unlocked iteration of getAll *)
-Definition w_mex_sched : list nat := w_prefix ++ repeat 2 27 ++ repeat 1 59 ++ [2].
-Lemma getall_witness :
-  match run (init 100 2 [1%Z; 2%Z; 3%Z] [w_setup; [MExAll]; [MExAll]]) w_mex_sched with
-  | Some s => all_finished_b s = true /\ bad_exception s = true
-  | None => False
-  end.
-Proof. vm_compute. split; reflexivity. Qed.
+(* regression: the schedules that were witnesses of the three findings repaired by 6765e29 and 7ef2364
+   now are guarded runs that end well *)
+Definition ends_well (s : state) : bool :=
+  all_finished_b s && negb (two_objects s) && negb (bad_exception s) && negb (lost_object s) &&
+  match s_lock s with None => true | Some _ => false end.
+Definition w_xall_sched : list nat := w_prefix ++ repeat 2 11 ++ repeat 1 9 ++ repeat 2 3 ++ repeat 1 4.
+Definition w_lost_sched : list nat := w_prefix ++ repeat 2 12 ++ repeat 1 9 ++ repeat 2 2 ++ repeat 1 4.
+Definition w_mex_sched : list nat := w_prefix ++ repeat 2 32 ++ repeat 1 6 ++ repeat 2 36 ++ repeat 1 16.
 
 Lemma refute_inv_full : forall freq frac rows progs sched,
   match run (init freq frac rows progs) sched with
@@ -259,7 +242,7 @@ Proof. exact (refute_inv_full 100%Z 2 [1%Z; 2%Z; 3%Z] [w_setup; [Create]; [Get 4
 
 Lemma refute_quiescent_full : forall freq frac rows progs sched,
   match run (init freq frac rows progs) sched with
-  | Some s => all_finished_b s = true /\ bad_exception s = true
+  | Some s => all_finished_b s = true /\ two_objects s = true
   | None => False
   end -> ~ C09_quiescent_full.
 Proof.
@@ -269,11 +252,15 @@ Proof.
   destruct W as (Wf & W). specialize (R s eq_refl).
   assert (A : all_finished s).
   { intros t Ht. unfold all_finished_b in Wf. rewrite forallb_forall in Wf. apply Wf. apply in_seq. lia. }
-  destruct (F _ _ _ _ s R A) as (_ & N & _).
-  unfold bad_exception in W. apply existsb_exists in W. destruct W as (a & Ha & W).
-  destruct a as [| x | |]; try discriminate.
-  destruct (in_res_list s _ Ha) as (t & Rt). rewrite (N t x Rt) in W. discriminate.
+  destruct (F _ _ _ _ s R A) as (_ & _ & I & _).
+  unfold two_objects in W. apply existsb_exists in W. destruct W as (a & Ha & W).
+  apply existsb_exists in W. destruct W as (b & Hb & W).
+  destruct a as [o i e | | |]; try discriminate. destruct b as [o' i' e' | | |]; try discriminate.
+  apply andb_true_iff in W. destruct W as (W & Hne). apply andb_true_iff in W. destruct W as (Hi & He).
+  apply Z.eqb_eq in Hi. apply Nat.eqb_eq in He. subst.
+  destruct (in_res_list s _ Ha) as (t & Rt). destruct (in_res_list s _ Hb) as (t' & Rt').
+  pose proof (I t t' i' o o' e' Rt Rt'). subst. rewrite Nat.eqb_refl in Hne. discriminate.
 Qed.
 
 Theorem quiescent_full_refuted : ~ C09_quiescent_full.
-Proof. exact (refute_quiescent_full 100%Z 2 [1%Z; 2%Z; 3%Z] [w_setup; [Create]; [XAll]] w_xall_sched created_vs_expireall_witness). Qed.
+Proof. exact (refute_quiescent_full 100%Z 2 [1%Z; 2%Z; 3%Z] [w_setup; [Create]; [Get 4%Z]] w_get_sched created_vs_get_witness). Qed.
